@@ -157,6 +157,35 @@ CLAIMED = {
             "Size-bounded in circuit shape and operator configuration, complete in values; operators are abstract records in "
             "part A; decompose/expand preserving trainability is not covered; F2 fixed in repo, F3 (unsorted indices) open.",
             "DESIGN.md 4 C40", "E1+E2"),
+    "C43": ("proof",
+            "sidecar contracts on the capture-disabled paths of for_loop / while_loop / cond (VCs from the real ASTs, z3): user "
+            "callables are uninterpreted stateful functions of (clock, arguments) with a ghost call log; loops run a SYMBOLIC "
+            "number of iterations and are cut by the invariant state == ITER(k), log == CALLS(k), 0 <= k <= N with N the "
+            "arithmetically defined range length (independent of the encoder's range) and ITER/CALLS spec functions used "
+            "through instances of their unfolding equations; termination by the measure N-k; cond's branch selection against a "
+            "nested-if specification; counter-models replayed natively",
+            "For all start/stop/step (either sign; zero step raises), all iteration counts and all callable behaviours the "
+            "tape-mode loops make exactly the calls of the Python loop, thread the carried values as documented (0, 1, >1 "
+            "arguments, zero iterations, the no-argument ValueError), and return the last state; while_loop stops at the first "
+            "false condition; for_loop's argument normalisation and cond's first-true-predicate / else selection with exactly "
+            "one branch call. Number of carried arguments (0..3) and cond predicates (1..4) enumerated (size-bounded).",
+            "Trusts the pyvc encoder, z3; capture/qjit paths, measurement-valued cond (deferral), keyword forwarding and "
+            "while_loop termination are outside; pytrees.flatten and QueuingManager.remove are assumed contracts.",
+            "DESIGN.md 4 C43", "E1"),
+    "C41": ("proof",
+            "sidecar contracts on core/queuing.py (VCs from the real ASTs, z3): the class-level context stack is threaded as "
+            "symbolic-length state, calls on queues are checked as events; the generator context manager stop_recording is "
+            "executed with an ARBITRARY, possibly raising, with-body substituted at its yield under full try/finally semantics "
+            "with an exceptional postcondition; AnnotatedQueue methods against an assumed OrderedDict contract over a "
+            "symbolic-length key sequence; composition lemmas for enter/exit and append order",
+            "Stack discipline of the active contexts (push/pop, IndexError exactly on empty), __enter__/__exit__ restore on "
+            "normal and exceptional exit without swallowing exceptions, append/remove/update_info/get_info act exactly once on "
+            "the INNERMOST queue and not at all outside a context or under stop_recording, stop_recording restores the same "
+            "list object afterwards (also after exceptions), apply copies and queues exactly once, AnnotatedQueue keeps "
+            "insertion order == call order and removes exactly the named object -- for all stack depths and queue lengths.",
+            "Trusts the pyvc encoder, z3; OrderedDict, copy.copy, Operator.queue and the with-protocol are assumed; operators "
+            "consumed by wrapper constructors, metadata kwargs, from_queue, capture mode and threads are outside.",
+            "DESIGN.md 4 C41", "E1"),
     "C45": ("proof",
             "sidecar contracts over the label-sequence view on the real methods of pennylane/wires.py: label sequences of "
             "SYMBOLIC length over an uninterpreted label sort, python sets as arrays label->Bool, linked by an axiomatic "
